@@ -592,7 +592,7 @@ where
     A: Fx + codec::Encode + codec::Decode + codec::MaxEncodedLen + serde::Serialize + serde::de::DeserializeOwned,
     <A as Fixed>::Bits: codec::Encode + Hash,
     <A as Fixed>::Bytes: AsRef<[u8]> + Copy,
-    sfv::sf::Wrapping<A>: serde::Serialize,
+    sfv::sf::Wrapping<A>: serde::Serialize + serde::de::DeserializeOwned,
 {
     let la = A::lay();
     if c.w8only != (la.w == 8) {
@@ -745,6 +745,17 @@ where
             };
             c.wr.raw(",\"serde_seq\":");
             c.wr.out1(&seq);
+            // Wrapping<A> reads back what it wrote; malformed documents (duplicate, unknown, missing field) are errors
+            let wback: Out = match serde_json::from_str::<sfv::sf::Wrapping<A>>(&wjs) {
+                Ok(v) => Out::V(Num::u(v.0.raw())),
+                Err(_) => Out::None,
+            };
+            c.wr.raw(",\"wserde_rt\":");
+            c.wr.out1(&wback);
+            let bad = |doc: String| -> Out { match cat(|| serde_json::from_str::<A>(&doc)) { Ok(Ok(_)) => Out::V(Num::u(0)), Ok(Err(_)) => Out::None, Err(_) => Out::Panic } };
+            c.wr.raw(",\"serde_bad\":");
+            c.wr.outs(&[bad(format!("{{\"bits\":{},\"bits\":{}}}", bits_txt, bits_txt)), bad(format!("{{\"bots\":{}}}", bits_txt)), bad("{}".to_string()),
+                        bad(format!("{{\"bits\":{},\"more\":1}}", bits_txt)), bad("[]".to_string()), bad(format!("\"{}\"", bits_txt))]);
             c.wr.raw("}");
             c.wr.end();
         }
@@ -756,7 +767,7 @@ where
     A: Fx + codec::Encode + codec::Decode + codec::MaxEncodedLen + serde::Serialize + serde::de::DeserializeOwned,
     <A as Fixed>::Bits: codec::Encode + Hash,
     <A as Fixed>::Bytes: AsRef<[u8]> + Copy,
-    sfv::sf::Wrapping<A>: serde::Serialize,
+    sfv::sf::Wrapping<A>: serde::Serialize + serde::de::DeserializeOwned,
     i8: PartialOrd<A>, i16: PartialOrd<A>, i32: PartialOrd<A>, i64: PartialOrd<A>, i128: PartialOrd<A>, isize: PartialOrd<A>,
     u8: PartialOrd<A>, u16: PartialOrd<A>, u32: PartialOrd<A>, u64: PartialOrd<A>, u128: PartialOrd<A>, usize: PartialOrd<A>,
     f32: PartialOrd<A> + LossyFrom<A>, f64: PartialOrd<A> + LossyFrom<A>,
